@@ -128,6 +128,7 @@ class Path:
     outcome: tuple  # ('return', term) | ('raise', term, cls) | ('fall',)
     env: dict
     fn: FuncInfo
+    heap: dict = field(default_factory=dict)  # fields of the objects constructed on the path
 
     def calls(self, pred=None) -> List[Ev]:
         return [e for e in self.events if e.kind == "call" and (pred is None or pred(e))]
@@ -317,6 +318,10 @@ def _percent_to_joinedstr(n: ast.BinOp):
 
 def _literal_kwargs(v: ast.AST, events):
     """Keywords of `**v` when v is a dict display with constant string keys that nothing touched since."""
+    if isinstance(v, ast.Dict) and v.values and all(
+            k_ is None or (isinstance(k_, ast.Constant) and isinstance(k_.value, str) and k_.value.isidentifier()) for k_ in v.keys):
+        # f(**{"a": x, **rest}) is f(a=x, **rest)
+        return [ast.keyword(arg=(k_.value if k_ is not None else None), value=val) for k_, val in zip(v.keys, v.values)]
     if not (isinstance(v, ast.Name) and v.id.startswith("$l") and v.id[2:].isdigit()):
         return None
     i = int(v.id[2:])
@@ -377,9 +382,12 @@ class Enumerator:
             env[a.vararg.arg] = N(a.vararg.arg)
         if a.kwarg:
             env[a.kwarg.arg] = N(a.kwarg.arg)
+        heap0 = None
         if bindings:
+            bindings = dict(bindings)
+            heap0 = bindings.pop("$heap", None)
             env.update(bindings)
-        st = St(env, (), {}, (fn,))
+        st = St(env, (), {}, (fn,), None, dict(heap0) if heap0 else None)
         self.truncated = 0
         self._budget = 0
         self._try_depth = 1 if self.exc_edges == "all" else 0
@@ -388,7 +396,7 @@ class Enumerator:
         for s, oc in self.block(body, st):
             if oc[0] in ("break", "continue"):
                 raise AnalysisError(f"{fn.key}: loop outcome escaped the function")
-            out.append(Path(s.events, oc, s.env, fn))
+            out.append(Path(s.events, oc, s.env, fn, dict(s.heap)))
         return out
 
     # ------------------------------------------------------------------ statements
@@ -455,6 +463,8 @@ class Enumerator:
         def k(st2, cur):
             def k2(st3, v):
                 new = ast.BinOp(left=cur, op=s.op, right=v)
+                if isinstance(s.op, (ast.Add, ast.Sub)) and all(isinstance(x, ast.Constant) and type(x.value) is int for x in (cur, v)):
+                    new = ast.Constant(value=cur.value + v.value if isinstance(s.op, ast.Add) else cur.value - v.value)
                 return self.store(s.target, new, st3, s, lambda st4: [(st4, FALL)])
 
             return self.ev(s.value, st2, k2)
@@ -1009,6 +1019,12 @@ class Enumerator:
         def ka(st2, v):
             if isinstance(v, ast.Name) and v.id.startswith("$new:") and (v.id, n.attr) in st2.heap:
                 return k(st2, st2.heap[(v.id, n.attr)])  # field of an object built on this path
+            idx = self._namedtuple_field(v, n.attr, st2)
+            if idx is not None:
+                # `nt.field` is `nt[i]`
+                if isinstance(v, ast.Tuple) and idx < len(v.elts):
+                    return k(st2, v.elts[idx])
+                return k(st2, ast.Subscript(value=v, slice=ast.Constant(value=idx), ctx=ast.Load()))
             t = ast.Attribute(value=v, attr=n.attr, ctx=ast.Load())
             getter = self.r.property_getter(t, st2) if self.r is not None else None
             if getter is None:
@@ -1082,8 +1098,13 @@ class Enumerator:
         js = _percent_to_joinedstr(n)
         if js is not None:
             return self.ev(js, st, k)
-        return self.ev_list([n.left, n.right], st,
-                            lambda st2, v: k(st2, ast.BinOp(left=v[0], op=n.op, right=v[1])))
+        def kb(st2, v):
+            l, r = v
+            if isinstance(n.op, (ast.Add, ast.Sub)) and all(isinstance(x, ast.Constant) and type(x.value) is int for x in (l, r)):
+                return k(st2, ast.Constant(value=l.value + r.value if isinstance(n.op, ast.Add) else l.value - r.value))
+            return k(st2, ast.BinOp(left=l, op=n.op, right=r))
+
+        return self.ev_list([n.left, n.right], st, kb)
 
     def e_UnaryOp(self, n, st, k):
         return self.ev(n.operand, st, lambda st2, v: k(st2, ast.UnaryOp(op=n.op, operand=v)))
@@ -1170,6 +1191,25 @@ class Enumerator:
                     bound.add(t.id)
 
         def kc(st2, it0):
+            # a comprehension over a literal tuple/list of constants is the display it spells out
+            g0 = n.generators[0]
+            if len(n.generators) == 1 and not g0.ifs and isinstance(g0.target, ast.Name) and isinstance(it0, (ast.Tuple, ast.List)) \
+                    and it0.elts and len(it0.elts) <= 8 and all(isinstance(e_, ast.Constant) for e_ in it0.elts) \
+                    and isinstance(n, (ast.ListComp, ast.DictComp, ast.SetComp)):
+                def inst(node, c_):
+                    class _C(ast.NodeTransformer):
+                        def visit_Name(self, nd):
+                            return ast.Constant(value=c_.value) if nd.id == g0.target.id and isinstance(nd.ctx, ast.Load) else nd
+                    return ast.fix_missing_locations(ast.copy_location(_C().visit(_deepcopy(node)), n))
+
+                if isinstance(n, ast.DictComp):
+                    disp = ast.Dict(keys=[inst(n.key, c_) for c_ in it0.elts], values=[inst(n.value, c_) for c_ in it0.elts])
+                elif isinstance(n, ast.ListComp):
+                    disp = ast.List(elts=[inst(n.elt, c_) for c_ in it0.elts], ctx=ast.Load())
+                else:
+                    disp = ast.Set(elts=[inst(n.elt, c_) for c_ in it0.elts])
+                ast.copy_location(disp, n)
+                return self.ev(disp, st2, k)
             env = {a: b for a, b in st2.env.items() if a not in bound}
             new = _Subst(env).visit(_deepcopy(n))
             new.generators[0].iter = it0
@@ -1244,6 +1284,10 @@ class Enumerator:
         js = _format_to_joinedstr(n)
         if js is not None:
             return self.ev(js, st, k)
+        if isinstance(n.func, ast.Name) and n.func.id == "getattr" and "getattr" not in st.env and len(n.args) == 2 and not n.keywords \
+                and isinstance(n.args[1], ast.Constant) and isinstance(n.args[1].value, str) and n.args[1].value.isidentifier():
+            # getattr(obj, "name") is obj.name
+            return self.ev(ast.copy_location(ast.Attribute(value=n.args[0], attr=n.args[1].value, ctx=ast.Load()), n), st, k)
         if isinstance(n.func, ast.Attribute) and n.func.attr == "extend" and len(n.args) == 1 and not n.keywords \
                 and isinstance(n.args[0], ast.Call) and self._gen_callee(n.args[0], st) is not None:
             # xs.extend(gen(...)) with gen an inlined generator   ==   for _v in gen(...): xs.append(_v)
@@ -1339,7 +1383,31 @@ class Enumerator:
                 if f_ not in defaults:
                     return None
                 vals[f_] = defaults[f_]
-        return ast.Tuple(elts=[vals[f_] for f_ in fields], ctx=ast.Load())
+        tup = ast.Tuple(elts=[vals[f_] for f_ in fields], ctx=ast.Load())
+        tup._nt_fields = list(fields)
+        return tup
+
+    def _namedtuple_field(self, v: ast.AST, attr: str, st: St):
+        """Index of `attr` when `v` is (typed as) an instance of a NamedTuple class of the package."""
+        f = getattr(v, "_nt_fields", None)
+        if f is not None:
+            return f.index(attr) if attr in f else None
+        if self.r is None or attr.startswith("_") or isinstance(v, ast.Name) and v.id in ("self", "cls"):
+            return None
+        if not any(attr in getattr(c, "class_annots", {}) for c in self.p.classes.values()):
+            return None
+        try:
+            types = self.r.typeof(v, st.fn, st.events)
+        except Exception:
+            return None
+        for tname in types:
+            c = self.p.classes.get(tname)
+            if c is None or not any(b.split(".")[-1] == "NamedTuple" for b in c.bases):
+                continue
+            fields = [s_.target.id for s_ in c.node.body if isinstance(s_, ast.AnnAssign) and isinstance(s_.target, ast.Name)]
+            if attr in fields:
+                return fields.index(attr)
+        return None
 
     def _raise_variants(self, st: St, node):
         if self._try_depth <= 0 or self.exc_edges == "none":
@@ -1415,7 +1483,8 @@ class Enumerator:
                 recv = N(f"$type:{callee.cls.name}")
             pos = [recv] + pos
         elif is_method and isinstance(f, ast.Name) and callee.name == "__init__":
-            pos = [N(f"$new:{callee.cls.name}@{getattr(call, 'lineno', 0)}")] + pos
+            # the object is an instance of the class that was called (the __init__ may be inherited)
+            pos = [N(f"$new:{f.id if f.id in self.p.classes else callee.cls.name}@{getattr(call, 'lineno', 0) or getattr(st.events[-1].node, 'lineno', 0) if st.events else 0}")] + pos
         star = [p for p in pos if isinstance(p, ast.Starred)]
         plain = [p for p in pos if not isinstance(p, ast.Starred)]
         for i, nm in enumerate(names):
